@@ -464,7 +464,7 @@ func (t *Tokenizer) tokenizeBuffer(buf []byte, last bool) error {
 	}
 	if last {
 		if 0 < len(t.starts) || len(t.mode) == 256 { // valid finishing maps are one byte longer
-			return t.newError(off, "incomplete JSON")
+			return t.newError(len(buf), "incomplete JSON")
 		}
 		if t.mode[256] == 'n' {
 			t.handleNum()
